@@ -3,7 +3,7 @@ import vf
 SPEC = dict(
     level="proof",
     harness=dict(pkg_dir="cmd/zoekt-local-sync", run="TestVerifC33$", files=["cmd/zoekt-local-sync/zz_verif_c33_test.go"],
-                 n_quick=90, n_thorough=1500, pkg_name="main"),
+                 n_quick=90, n_thorough=800, pkg_name="main"),
     runner=dict(imports=["From ZV Require Import Lib.Base Model.LocalSync."], case_type="lscase",
                 mismatch_fn="ls_mismatches", shard=100),
     rule="histories over a scratch world (roots r1, r2, r1/team, r3.git; work/bare/empty/broken git repositories copied from "
